@@ -38,8 +38,12 @@ func RunPlan(r *ev.Run, plan []Plan, each func(s Spec)) {
 // Report turns monitor violations of one run into ev violations with a witness.
 func Report(r *ev.Run, b *Built, vs []mon.V) {
 	for _, v := range vs {
+		replay := fmt.Sprintf("VERIF_SEED=%d bin/check %s %s -only %d", r.Seed, r.Prop, r.Tier, b.Spec.Idx)
+		if b.Spec.Idx < 0 {
+			replay = fmt.Sprintf("VERIF_SEED=%d bin/check %s %s   # scenario %q is one of the scripted/seeded scenarios executed at the start of the check; they are a function of VERIF_SEED", r.Seed, r.Prop, r.Tier, b.Spec.Profile)
+		}
 		r.Violation(v.Sig, v.What, map[string]any{
-			"replay_cmd": fmt.Sprintf("VERIF_SEED=%d bin/check %s %s -only %d", r.Seed, r.Prop, r.Tier, b.Spec.Idx),
+			"replay_cmd": replay,
 			"spec":       b.Spec,
 			"cfg":        CfgSummary(b.C),
 			"around":     mon.Around(b.C, v.Seq, 120, 5),
